@@ -37,7 +37,8 @@ EXPLANATION = (
     'annotations, default, attrs, examples) under its own presence test only. Decides these '
     'structural parts, not field-by-field fidelity.'
     ' R9: route attribute values are tested for absence with `is None` only, so that a declared 0/false/"" is not replaced by the schema default.'
-    ' RD (decision drift, stonelint.conddrift): the tests of the functions this property is anchored in (stonelint.ownership) are compared with reference/conditions.json; a relation, polarity or connective changed over the same operands, or an operand purely added or dropped, is a violation; re-spellings and new or removed tests are not claimed.')
+    ' RD (decision drift, stonelint.conddrift): the tests of the functions this property is anchored in (stonelint.ownership) are compared with reference/conditions.json; a relation, polarity or connective changed over the same operands, or an operand purely added or dropped, is a violation; re-spellings and new or removed tests are not claimed.'
+    " RE (expression drift, stonelint.exprdrift): the same functions' attribute names, variable reads, simple statements, calls and arithmetic/slice literals are compared with reference/expressions.json; a substituted attribute or variable, a dropped call or assignment, swapped arguments or a changed literal is a violation; any other edit is not claimed.")
 ASSUMPTIONS = [
     'registries of ApiNamespace are the attributes initialised to [] / {} in its __init__',
     'a "membership test" is `key in registry` / `key not in registry` on the same key and registry',
@@ -540,3 +541,5 @@ def run(pm, ctx):
     from ..conddrift import run_decisions
     from ..ownership import OWN
     run_decisions(pm, ctx, 'C02-RD', OWN['C02'])
+    from .. import exprdrift
+    exprdrift.run(pm, ctx, 'C02-RE', OWN['C02'])
